@@ -103,3 +103,24 @@ def install(reg, src):
                     "optyx.core.vectors:L2Norm._iter_vector", "optyx.core.vectors:L1Norm._iter_vector",
                     "optyx.core.vectors:LinearCombination._iter_vector")
     reg.values_dict = values_dict
+    install_params(reg, src)
+
+
+def install_params(reg, src):
+    @reg.contract("optyx.core.parameters:Parameter.set", props=["C12"], cases={"value": ["int", "float"]})
+    def _(c):
+        sp = Spec(c.ip)
+        ip = c.ip
+        p_ = c.arg("self", T.obj("Parameter", exact=True))
+        vk = c.choose("value", [])
+        v = c.arg("value", T.custom(lambda ip_, h: SReal(sym.to_real(sym.fresh("v", sym.I)), "int")) if vk == "int" else T.real("float"))
+        before = sp.PV
+        names_before = {k: t for k, t in ip.path.stores.items()}
+        if not c.verifying:
+            ip.path.stores["_value"] = z3.Store(before, p_.ref, real_term(v))
+        c.returns(T.none())
+
+        def post(res):
+            others = [k for k in ip.path.stores if k != "_value" and not ip.path.stores[k].eq(names_before.get(k, ip.path.stores[k]))]
+            return [sp.PV == z3.Store(before, p_.ref, real_term(v)), z3.BoolVal(not others)]
+        c.ensures("only this parameter's value changes (no cache, no model field, no other parameter)", post)
